@@ -287,6 +287,7 @@ def conj_fields(f):
 
     # states are frozensets of (variable, frozenset of fields) pairs (a dict would be read as per-edge states by the solver)
     GUARD = "__guards__"
+    FALSY = frozenset({"__falsy__"})
 
     def transfer(node, st0):
         st = dict(st0)
@@ -296,6 +297,13 @@ def conj_fields(f):
             neg = isinstance(t, ast.UnaryOp) and isinstance(t.op, ast.Not)
             core = t.operand if neg else t
             d = frozenset(deps(core, st))
+            if isinstance(core, ast.Name):
+                # `if flag:` - on the other edge the flag is false: returning it there is a rejecting exit
+                yes, no = dict(st), dict(st)
+                yes[GUARD] = frozenset(st.get(GUARD, frozenset()) | d)
+                no[core.id] = FALSY
+                edge_true, edge_false = ("F", "T") if neg else ("T", "F")
+                return {edge_true: frozenset(yes.items()), edge_false: frozenset(no.items()), None: frozenset(st.items())}
             if d:
                 yes = dict(st)
                 yes[GUARD] = frozenset(st.get(GUARD, frozenset()) | d)
@@ -321,6 +329,8 @@ def conj_fields(f):
             # `return False` is a rejecting exit: it cannot make two different objects equal
             if isinstance(v, ast.Constant) and v.value is False:
                 continue
+            if isinstance(v, ast.Name) and dict(states[n.id]).get(v.id) == FALSY:
+                continue          # `return flag` where the flag is known to be false
             d = (deps(v, dict(states[n.id])) if v is not None else set()) | set(dict(states[n.id]).get(GUARD, frozenset()))
             if isinstance(v, ast.Call) and isinstance(v.func, ast.Name) and v.func.id == "bool" and len(v.args) == 1:
                 d |= deps(v.args[0], dict(states[n.id]))
